@@ -3,6 +3,7 @@ import PebblesVerif.Driver.Util
 import PebblesVerif.Model.SubProto
 import PebblesVerif.Model.SubProtoFixed
 import PebblesVerif.Model.ConnWrite
+import PebblesVerif.Model.SubInit
 import PebblesVerif.Spec.SubProtoFacts
 /-! Driver ops for the subscription teardown models (C18):
   `c18.facts`    which protocol the regenerated facts describe, and the knobs
@@ -15,6 +16,11 @@ import PebblesVerif.Spec.SubProtoFacts
   `c18.paths`    all schedules up to a depth / seeded random maximal schedules (to be forced)
   `c18.accept`   free-running conformance: is there a run of the model whose per-goroutine
                  projections are the observed hook sequences?
+  `c18.init.explore` / `c18.init.run` / `c18.init.accept`: the same for the establishment phase
+                 of `Subscribe` (Model/SubInit.lean, variant from the regenerated facts):
+                 `accept` = is there a MAXIMAL run whose projections on the reader and the closer
+                 are the observed hook sequences and in whose last state exactly the observed
+                 goroutines have exited?
 -/
 namespace PebblesVerif.Driver.DSubProto
 open Lean PebblesVerif.Driver
@@ -404,13 +410,134 @@ def obsOf (j : Json) : List (String × List String) :=
   | some (.obj kvs) => kvs.toList.map (fun (k, v) => (k, (asArr v).map asStr))
   | _ => []
 
+/-! ## the establishment phase of Subscribe -/
+section initphase
+open PebblesVerif.SubInit
+
+def initLabel : SubInit.Ev → String
+  | .rqWrite ok => s!"rqWrite:{ok}" | .rqCloseF => "rqCloseF" | .rqSend => "rqSend"
+  | .sCloseErr => "sCloseErr" | .cqRecv => "cqRecv" | .cqUpClose => "cqUpClose"
+  | .rqUpClose => "rqUpClose" | .rqSel => "rqSel" | .rqNilAbort => "rqNilAbort"
+
+def initParse (s : String) : Option SubInit.Ev :=
+  let (a, b) := splitLabel s
+  match a with
+  | "rqWrite" => some (.rqWrite (b == "true")) | "rqCloseF" => some .rqCloseF | "rqSend" => some .rqSend
+  | "sCloseErr" => some .sCloseErr | "cqRecv" => some .cqRecv | "cqUpClose" => some .cqUpClose
+  | "rqUpClose" => some .rqUpClose | "rqSel" => some .rqSel | "rqNilAbort" => some .rqNilAbort
+  | _ => none
+
+/-- the hook point the reader is at: there is no hook between the start of the goroutine and its
+    deferred block (`Rq.init` is not a hook: it is where an unobserved reader is), none between
+    `Rq.upClose` and `Rq.sendNil` / `Rq.done` -/
+def initRPoint : SubInit.RPc → String
+  | .wInit | .wStart | .closeF _ | .sendErr _ | .sendOk => "Rq.init"
+  | .est => "Rq.upRead"
+  | .dUpClose | .dSel => "Rq.upClose"
+  | .sendNil => "Rq.sendNil"
+  | .done => "done"
+
+/-- only the two goroutines: the caller of `Subscribe` passes no hook point -/
+def initPos (s : SubInit.St) : List (String × String) :=
+  [("Cq", cqPoint s.c), ("Rq", initRPoint s.r)]
+
+def initSys (v : SubInit.Variant) : Sys SubInit.St SubInit.Ev := ⟨SubInit.init, SubInit.enabled v, SubInit.step? v⟩
+
+def factsVariant : SubInit.Variant := SubProtoFacts.initVariant Gen.SubProto.facts
+
+def variantStr : SubInit.Variant → String
+  | .repaired => "repaired" | .preRepair => "preRepair"
+
+def variantOf (j : Json) : SubInit.Variant :=
+  match getStr j "variant" with
+  | "repaired" => .repaired
+  | "preRepair" => .preRepair
+  | _ => factsVariant
+
+def whichStr : SubInit.Which → String
+  | .init => "init" | .start => "start"
+
+def resultJson : Option (Option SubInit.Which) → Json
+  | none => Json.null
+  | some none => Json.str "nil"
+  | some (some w) => Json.str ("error:" ++ whichStr w)
+
+def initStateJson (v : SubInit.Variant) (s : SubInit.St) : Json :=
+  obj [("pos", posJson (initPos s)), ("fatal", optStr s.fatal), ("result", resultJson s.result),
+    ("terminal", SubInit.terminal v s), ("handedOver", SubInit.handedOver s), ("ended", SubInit.ended s),
+    ("leak", SubInit.leak v s), ("upClosed", s.upClosed), ("wrote", s.wrote),
+    ("enabled", strArr ((SubInit.enabled v s).map initLabel))]
+
+def initRun (v : SubInit.Variant) (labels : List String) : Json := Id.run do
+  let mut s := SubInit.init
+  let mut k : Nat := 0
+  for l in labels do
+    match initParse l with
+    | none => return obj [("accepted", false), ("at", k), ("reason", "bad-label"), ("label", l)]
+    | some e =>
+      match SubInit.step? v s e with
+      | none => return obj [("accepted", false), ("at", k), ("reason", "not-enabled"), ("label", l), ("state", initStateJson v s)]
+      | some s' => s := s'; k := k + 1
+  return obj [("accepted", true), ("variant", variantStr v), ("state", initStateJson v s)]
+
+/-- the goroutines that have exited in `s` -/
+def initDone (s : SubInit.St) : List String :=
+  (initPos s).filterMap (fun (g, p) => if p == "done" then some g else none)
+
+/-- exhaustive search (the system has a few dozen states) for a MAXIMAL run with the observed
+    projections whose last state has exactly the observed set of exited goroutines -/
+partial def initAccept (v : SubInit.Variant) (obs0 : List (String × List String)) (done : List String) :
+    Bool × Nat × Option SubInit.St := Id.run do
+  let remaining (o : List (String × List String)) : Nat := o.foldl (fun a (_, l) => a + l.length) 0
+  let mut stack : List (SubInit.St × List (String × List String)) := [(SubInit.init, obs0)]
+  let mut nodes := 0
+  let mut closest : Option SubInit.St := none
+  while !stack.isEmpty && nodes < 100000 do
+    match stack with
+    | [] => pure ()
+    | (s, o) :: rest =>
+      stack := rest
+      nodes := nodes + 1
+      let en := SubInit.enabled v s
+      if en.isEmpty then
+        if remaining o == 0 then
+          closest := some s
+          let d := initDone s
+          if d.all (done.contains ·) && done.all (d.contains ·) then return (true, nodes, some s)
+      else
+        for e in en do
+          match SubInit.step? v s e with
+          | none => pure ()
+          | some s' =>
+            match advance o (initPos s) (initPos s') with
+            | some o' => stack := (s', o') :: stack
+            | none => pure ()
+  return (false, nodes, closest)
+
+end initphase
+
 def handle : Handler
   | "c18.facts", _ =>
     some (obj [("proto", protoOf (obj [])), ("knobs", knobsJson factsKnobs),
       ("writesLocked", SubProtoFacts.writesLocked Gen.SubProto.facts),
       ("isFixed", decide (Gen.SubProto.facts = Gen.SubProto.expectedFixed)),
       ("isCurrent", decide (Gen.SubProto.facts = Gen.SubProto.expectedCurrent)),
-      ("recognised", Gen.SubProto.facts.recognised)])
+      ("recognised", Gen.SubProto.facts.recognised),
+      ("initVariant", variantStr factsVariant),
+      ("initRecognised", SubProtoFacts.initRecognised Gen.SubProto.facts)])
+  | "c18.init.explore", j =>
+    let v := variantOf j
+    let (st, tr, d, complete, ws) := bfs (initSys v)
+      [("fatal", SubInit.fatal), ("leak", SubInit.leak v), ("handedOver", SubInit.handedOver), ("ended", SubInit.ended)] 100 100000
+    some (obj [("variant", variantStr v), ("states", st), ("transitions", tr), ("depth", d), ("complete", complete),
+      ("witnesses", witnessJson initLabel (initStateJson v) ws)])
+  | "c18.init.run", j =>
+    some (initRun (variantOf j) ((getArr j "schedule").map asStr))
+  | "c18.init.accept", j =>
+    let v := variantOf j
+    let (ok, nodes, last) := initAccept v (obsOf j) ((getArr j "done").map asStr)
+    some (obj [("accepted", ok), ("nodes", nodes), ("variant", variantStr v),
+      ("state", match last with | some s => initStateJson v s | none => Json.null)])
   | "c18.explore", j =>
     let c := cfgOf j
     let depth := if getNat j "depth" == 0 then 200 else getNat j "depth"
